@@ -94,6 +94,10 @@ m = {
            "source_commits": commits(), "add_only": True},
  "engines": [
    {"name": "hpsim", "path": "sim/", "serves_properties": sorted(C), "kind_free_text": "dependency-free seeded simulator: sender, wire faults, receiver loop, placement arena with guard pages, reference model, monitors, minimiser, replay; worker processes"},
+   {"name": "variants", "path": "variants.sh", "serves_properties": ["C01","C05","C06","C07","C08","C09","C10","C13","C14","C19"], "kind_free_text": "12 differently built copies of hpsim replaying the same seeds (digest comparison, or the full check on a slice); 32-point build lattice (configuration sweep)"},
+   {"name": "hpsim-threads", "path": "threads/", "serves_properties": ["C13"], "kind_free_text": "shuttle 0.9.3: cold-start race of 2..16 simulated threads under seeded Random/PCT schedulers, replayable schedule file"},
+   {"name": "miri", "path": "sim/ and sim-shadow/ (shadow manifest keeps SIMD on)", "serves_properties": ["C01","C13"], "kind_free_text": "Miri on the nightly toolchain: a small batch of simulated runs and a many-seeds thread race with real std threads"},
+   {"name": "icount", "path": "extra/C20.sh", "serves_properties": ["C20"], "kind_free_text": "valgrind cachegrind instruction counts of one parse at N and 4N for 24 adversarial families"},
  ],
  "checks": [],
  "notes": "See DESIGN.md. Every check: ./v check <ID> quick|thorough; replay: ./v replay <file>. VERIF_SEED seeds everything (default 20261004); VERIF_JOBS workers (default 16).",
@@ -101,8 +105,16 @@ m = {
    {"property_id": "C12", "reason": "internal pure scanner functions (bytes, len, alignment) -> stop position: no history, schedule, clock or fault for a simulator to own; deciding it is bounded enumeration (model checking), and the NEON backend cannot execute in this x86-64 sandbox; indirect coverage via C06/C08/C13 under forced backends is reported there (DESIGN.md §6)"},
  ],
 }
+GRAMMAR = {"C05","C06","C07","C08","C10","C14"}
+PROFILE = {"C02","C03","C04","C11","C15","C16","C17","C18"}
 for pid in sorted(C):
     cat, ref, text, note, tech = C[pid]
+    if pid in GRAMMAR:
+        text += " In addition the property's own seed list is replayed in digest mode by the other built variants of the simulator (debug-assertions, SIMD disabled, compile-time sse4.2 / avx2, no_std; thorough: all 8): the runtime-detection build, which the main run validates, must agree with each of them."
+        tech += "; own plan replayed by built variants (digest comparison)"
+    if pid in PROFILE:
+        text += " A fifth of the runs is repeated by the debug-assertions build of the simulator (debug_assert!, overflow checks and cfg!(debug_assertions) branches of the crate live; a panic in any re-issued call is a differing result)."
+        tech += "; debug-assertions slice" 
     m["checks"].append({
         "property_id": pid,
         "quick_cmd": f"./v check {pid} quick",
